@@ -87,6 +87,15 @@ REG = {
         ],
         "trusted_base": ["std++ gmap", "modelled, not verified: bcrypt, yaml.v3, os file operations (create-exclusive, rename, remove) on one directory"],
     },
+    "C18": {
+        "assumptions": [
+            "article IDs stay below 2^32 - 1 (reachable only after 2^32 posts); the uint32 wrap is written into the model",
+            "the nested name->node maps of the Go code are represented by one path-keyed map (children of p = keys p ++ [name]); equivalence is validated by the per-step dump correspondence",
+            "category/bundle names in generated histories are UTF-8 (yaml map keys); titles, poster names and bodies are arbitrary bytes; dates are stamped by the server and fed to the model as inputs",
+            "posting to a missing category or replying to a missing parent panics in the code (recovered by the connection loop); the model returns Panicked with the in-memory side effect on the previous article's NextArt",
+        ],
+        "trusted_base": ["std++ gmap", "modelled, not verified: yaml.v3 round trip of the news tree, os.WriteFile + os.Rename"],
+    },
     "C16": {
         "assumptions": [
             "YAML documents are modelled as key->bool association lists; yaml.v3 itself (struct marshalling in field order, mapping/sequence decoding) is exercised through the real account manager on every run, not verified",
